@@ -55,10 +55,13 @@ Definition maybe_replace (o : opt) (text : bytes) : option bytes :=
       | None => Some text
       | Some nd =>
           match o_regex o with
-          | Some x => match rx_normal x text with
-                      | Some ms => Some (replace_matches text ms nd)
-                      | None => None
-                      end
+          | Some x =>
+              (* under -p the runs of matches have already been rewritten to the new delimiter *)
+              if o_compress o then Some text
+              else match rx_normal x text with
+                   | Some ms => Some (replace_matches text ms nd)
+                   | None => None
+                   end
           | None => Some (replace_matches text (lit_matches (o_delim o) text) nd)
           end
       end
